@@ -273,9 +273,76 @@ template<class Rep, class Tag>
     }
 }
 
+// ---- one operand is a cnl::constant<N> (the type that carries it is chosen from N): both orders, every tag ----
+template<class Rep, class Tag, long long N>
+[[gnu::noinline]] void prog_div_constant(const char* repname)
+{
+    using X = cnl::rounding_integer<Rep, Tag>;
+    using QF = decltype(X{} / cnl::constant<N>{});
+    using QR = decltype(cnl::constant<N>{} / X{});
+    constexpr int mode = tag_info<Tag>::mode;
+    if (!vf::begin(std::string("div_constant<") + repname + "," + std::to_string(N) + "," + tag_info<Tag>::name + ">", false)) return;
+    auto base = vals::lattice<Rep>(VF_TIER ? 1 : 3);
+    auto const Ls = closure_for<Rep, long long>(N, base);
+    auto fits = [](i128 q, size_t bytes) {
+        i128 const lim = i128(1) << (8 * bytes - 1);
+        return bytes >= 16 || (q >= -lim && q < lim);
+    };
+    for (Rep a : Ls) {
+        if (!vf::my_row()) continue;
+        for (int rev = 0; rev < 2; ++rev) {
+            auto id = [&] { return rev ? std::to_string(N) + "c/" + vf::to_s(a) : vf::to_s(a) + "/" + std::to_string(N) + "c"; };
+            if (vf::replaying() && !vf::case_selected(id())) continue;
+            i128 const num = rev ? i128(N) : i128(a), den = rev ? i128(a) : i128(N);
+            bool tie = false, inexact = false;
+            if (den == 0) {
+                vf::skip_pre();
+                continue;
+            }
+            i128 const q = ref_div(num, den, mode, tie, inexact);
+            if (!fits(q, rev ? sizeof(QR) : sizeof(QF))) {
+                vf::skip_pre();  // the rounded quotient is not representable in the result type
+                continue;
+            }
+            long long got = 0;
+            vf::Outcome o = vf::run([&] {
+                if (rev) got = static_cast<long long>(cnl::constant<N>{} / X{a});
+                else got = static_cast<long long>(X{a} / cnl::constant<N>{});
+            });
+            vf::validated();
+            vf::counted(inexact);
+            if (!o.ok() || got != (long long)q) {
+                vf::outcome(o.ok() ? "wrong_value" : o.str());
+                vf::violation(std::string(o.ok() ? "value" : o.str()) + (rev ? "/constant_dividend" : "/constant_divisor") + (tie ? "/tie" : "/other"), id(), id() + ": expected " + vf::to_s(q) + " got " + (o.ok() ? vf::to_s(got) : o.str()));
+            } else
+                vf::outcome(tie ? "ok_tie" : (inexact ? "ok_inexact" : "ok_exact"));
+        }
+    }
+}
+
+template<class Tag>
+void constant_group()
+{
+    prog_div_constant<i64, Tag, 3>("i64");
+    prog_div_constant<i64, Tag, -7>("i64");
+    prog_div_constant<i64, Tag, 2147483647LL>("i64");
+    prog_div_constant<i64, Tag, 2147483648LL>("i64");
+    prog_div_constant<i64, Tag, 4294967295LL>("i64");
+    prog_div_constant<i64, Tag, 4294967296LL>("i64");
+    prog_div_constant<i64, Tag, -2147483648LL>("i64");
+    prog_div_constant<i64, Tag, -2147483649LL>("i64");
+    prog_div_constant<i64, Tag, -4294967296LL>("i64");
+    prog_div_constant<i32, Tag, 10>("i32");
+    prog_div_constant<i32, Tag, 3000000000LL>("i32");
+    prog_div_constant<i32, Tag, -2147483649LL>("i32");
+    prog_div_constant<i16, Tag, 32768>("i16");
+    prog_div_constant<i8, Tag, -129>("i8");
+}
+
 template<class Tag>
 void tag_group()
 {
+    constant_group<Tag>();
     constexpr int FB = VF_TIER ? 16 : 8;
     // narrow operand types: complete enumeration
     prog_div<i8, i8, Tag>(FB);
